@@ -185,6 +185,9 @@ def c20c(ctx, tu):
         for fn in tu.find(name):
             n += 1
             news = [e for b, e in fn.events() if e["e"] == "ctor" and "co_return_handler_t" in e.get("type", "")]
+            if not news:
+                # ... or created through make_unique<handler>(function, list)
+                news = [e for b, e in fn.events() if e["e"] == "call" and re.match(r"std::make_unique<trompeloeil::co_return_handler_t<", e.get("q") or "")]
             ok = len(news) == 1 and len(news[0]["args"]) == 2 and FIELD in erase(str(news[0]["args"][1]))
             why = "the coroutine return handler must be given the expectation's own yield list"
             if ok:
@@ -199,7 +202,9 @@ def c20c(ctx, tu):
                 ok = created_if_absent(fn, FIELD)
                 why = "CO_RETURN / CO_THROW must create the yield list only when it is absent"
             if ok:
-                resets = [e for b, e in fn.events() if e["e"] == "call" and qe(e).endswith("::reset") and
+                # installed by reset(new ...) or by assigning the freshly made unique_ptr
+                resets = [e for b, e in fn.events() if e["e"] == "call" and
+                          (qe(e).endswith("::reset") or (e.get("op") == "=" and qe(e).startswith("std::unique_ptr"))) and
                           "return_handler_obj" in str(e.get("recv"))]
                 ok = len(resets) == 1
                 why = "the handler must be installed as the expectation's return handler"
